@@ -581,7 +581,7 @@ type SpecFile struct {
 }
 
 var clauseKeywords = map[string]bool{
-	"requires": true, "ensures": true, "modifies": true, "invariant": true, "loop": true,
+	"requires": true, "assumes": true, "ensures": true, "modifies": true, "invariant": true, "loop": true,
 	"iter": true, "exit": true, "cancels": true, "blocks": true, "closureinv": true, "decreases": true, "emits": true, "recvinv": true, "flag": true, "use": true, "prop": true, "induction": true, "pattern": true, "defensive": true, "assert": true, "offers": true,
 	"field": true, "assumed": true, "pure": true, "end": true,
 }
@@ -714,14 +714,20 @@ func parseSpecText(path, pkgPath string, lines []string, lineNos []int) (*SpecFi
 				return nil, err
 			}
 			curF.ClosureInv = append(curF.ClosureInv, c)
-		case "requires", "ensures":
+		case "requires", "ensures", "assumes":
+			// "assumes [name] expr": a precondition that no call site can check (an invariant of objects reached through
+			// registries or interfaces); it is assumed at the function's entry, never at a call site, and is listed with the
+			// assumed contracts in the evidence
 			c, err := mkClause(kw, rest, it.line)
 			if err != nil {
 				return nil, err
 			}
+			if kw == "assumes" && curF == nil {
+				return nil, fmt.Errorf("%s:%d: assumes outside func", path, it.line)
+			}
 			switch {
 			case curF != nil:
-				if kw == "requires" {
+				if kw == "requires" || kw == "assumes" {
 					curF.Requires = append(curF.Requires, c)
 				} else {
 					curF.Ensures = append(curF.Ensures, c)
